@@ -4,7 +4,7 @@ from common import *
 CONTRACT_MODULES = ['ppoly', 'splines']
 LEVEL = 'proof'
 TRUSTED = []
-ASSUMPTIONS = ['positive durations; at least one segment; at most 2^22 segments']
+ASSUMPTIONS = ['positive durations; at least one segment; at most 2^22 segments', 'the contract of solveInternalDerivatives (boundary rows = boundary states) is used at its call sites here and discharged by the C02 check']
 UNDECIDED_CLAUSES = []
 CLASSES = ['CubicSplineND', 'QuinticSplineND', 'SepticSplineND']
 
@@ -26,7 +26,6 @@ def tasks(tier):
                 for d in range(D):
                     T.append(Task(cls, 'solveSpline', 0, cfg, gen_options={'focus': d}, label='DIM=%d,coord=%d' % (D, d)))
             else:
-                T.append(Task(cls, 'solveInternalDerivatives', None, cfg))
                 for d in range(D):
                     T.append(Task(cls, 'solveQuintic' if cls == 'QuinticSplineND' else 'solveSepticSpline', 0, cfg, gen_options={'focus': d}, label='DIM=%d,coord=%d' % (D, d)))
             T.append(Task(cls, 'initializePPoly', 0, cfg))
